@@ -110,6 +110,8 @@ def gen_map_script(rng, profile, big=False):
             tries += 1
             if hash_py(k) % mod == want and k not in fam:
                 fam.append(k)
+        if rng.random() < 0.5:
+            fam = [k for f2 in EQUAL_HASH for k in f2] + fam       # equal full hashes, not only equal residues
         for i, k in enumerate(fam):
             ops.append("set %s %d" % (hx(k), i))
         for _ in range(rng.randint(5, 40)):
@@ -197,8 +199,18 @@ def map_property_fails(exe, ops):
 NAME_ALPHA = b"abcdefghijklmnopqrstuvwxyzABCDEFGHIJKLMNOPQRSTUVWXYZ0123456789_"
 
 
+# names with the same FULL 64-bit cgi_hash_cstr value (the second 8-byte block cancels what the first one changed): they
+# share the residue at every table size, and only the name comparison tells them apart
+EQUAL_HASH = [[b"ZoneWing0000AA00_1", b"ZoneBABF0000XchA_1", b"ZoneBABI0000Xchh_1"],
+              [b"ZoneWing0000AA02_1", b"ZoneBABC0000Xch8_1"]]
+
+
 def gen_zone_script(rng, nmax):
     pool = []
+    if rng.random() < 0.5:
+        for fam in EQUAL_HASH:
+            assert len({hash_py(k) for k in fam}) == 1
+            pool += fam
     while len(pool) < rng.randint(3, nmax):
         k = rand_key(rng, 32, alphabet=NAME_ALPHA)
         if k not in pool:
